@@ -93,18 +93,21 @@ CHECKS = {
     "C08": dict(
         level="exploration",
         text=("Seeded simulated histories on a pool of interlinked HasTraits nodes (links, "
-              "List/Dict/Set/nested-list containers, lazy defaults, add_trait) with 1-3 handlers "
+              "List/Dict/Set/nested-list containers, lazy defaults, add_trait - also of a trait "
+              "whose constant default is a pool node; a quarter of the worlds use value-object "
+              "nodes with a key-based __eq__) with 1-3 handlers "
               "observing generated expressions (series '.'/':', parallel branches, items and typed "
               "*_items, +metadata, '*', optional traits; text and expression-object forms; "
               "dispatch same/ui under the simulated scheduler). Every graph op - link "
-              "reassignment with sharing and cycles, every container mutator with duplicates, "
-              "equal-list reassignment, default materialisation, gc and drop of nodes - is "
+              "reassignment with sharing and cycles, every container mutator with duplicates "
+              "(incl. slices that keep or repeat current items), equal-list reassignment, default materialisation, gc and drop of nodes - is "
               "followed by a probe of every pool object; a plain-Python model recomputes the "
               "matched set from scratch and each change must call each handler exactly once iff "
               "matched with notify on, with the right event object/name/old/new and container "
               "delta. Sampling, not proof."),
-        note=("Level-aliasing cycles (known finding K1) are excluded by a model-side guard and "
-              "reported via a stored witness; conflicting re-entrant mutation is not generated; "
+        note=("Level-aliasing cycles (known finding K1) and the assignment of a never-read "
+              "trait's own constant default object (K3) are excluded by model-side guards and "
+              "reported via stored witnesses; conflicting re-entrant mutation is not generated; "
               "containers never hold None."),
         technique=TECH + "seeded graph-mutation histories with probes after every step against a "
                          "from-scratch reachability model; simulated scheduler for ui dispatch",
@@ -137,7 +140,9 @@ CHECKS = {
         level="exploration",
         text=("Seeded simulated histories on 2-5 objects declaring seven Property(observe=...) "
               "traits (five cached) over scalar, Instance, list/dict/set-item and two-link "
-              "dependencies: dependency mutations incl. shared and repeated nodes and equal-list "
+              "dependencies, and class-level handlers that read the cached properties while a "
+              "change or a restore is in flight: dependency mutations incl. shared and repeated "
+              "nodes, slices that change the number of occurrences of an item, equal-list "
               "reassignment, reads of a generated subset of (object, property) pairs after every "
               "op so that caches survive several changes, pickle restart (protocols 2-5) and deep "
               "clone of the whole graph with the history continuing on the copy, gc. Getters are "
@@ -199,12 +204,14 @@ CHECKS = {
     "C10": dict(
         level="exploration",
         text=("Seeded simulated histories on 2-5 instances (created at generated moments) of a "
-              "generated class and a subclass overriding defaults, with eleven default kinds "
+              "generated class and a subclass overriding defaults, with fifteen default kinds "
               "(constant, list/dict copy, List/Dict/Set objects, factory, _name_default, Tuple "
-              "and Union with container members, Instance with args): reads and re-reads, "
+              "and Union with List/Set/Dict members incl. a nested Tuple, Instance with args): reads and re-reads, "
               "in-place mutation of default containers (also nested in the Tuple), valid and "
               "invalid assignments, registering/removing on_trait_change and observe handlers "
-              "(copy-on-write instance traits), add_trait/remove_trait, gc, drop of siblings, "
+              "(copy-on-write instance traits; each handler tagged with the instance it was "
+              "registered on), add_trait of Int / List / the class's own definition object and "
+              "remove_trait, gc, drop of siblings, "
               "pickle restart of an instance. Default methods, the factory and all handlers are "
               "callback points. After every op: first reads equal the declared default and "
               "reach no handler of any mechanism, default methods ran at most once per "
@@ -263,7 +270,8 @@ CHECKS = {
         design="4 (C13)"),
     "C20": dict(
         level="exploration",
-        text=("Seeded simulated histories on 2-4 objects with Int, Str and List(Int) traits: "
+        text=("Seeded simulated histories on 2-4 objects with Int, Str, List(Int) and validated "
+              "(fault-point validator) traits: "
               "sync_trait links (mutual and one-way, aliases, several partners, chains) added "
               "and removed at generated points, assignments on any side, every list mutator "
               "incl. extended slices, sort, reverse, *=, whole-list assignment, gc, and drop+gc "
@@ -272,8 +280,10 @@ CHECKS = {
               "(only through nodes it really changes). After every op all objects must hold "
               "what the link graph says (mutual sides equal; one-way target equal to the source "
               "after source assignments, source untouched by target ops), no handler may be "
-              "called twice for one change, no exception may reach the exception handler or the "
-              "caller (also after removal or partner death), and RecursionError or exceeding the "
+              "called twice for one change, no exception of the machinery may reach the exception "
+              "handler or the caller (also after removal or partner death; an injected validator "
+              "fault on the partner side must leave the partner unchanged and the pair able to "
+              "realign), and RecursionError or exceeding the "
               "step cap is a termination violation. Sampling, not proof."),
         note=("Both ends of a link have the same trait type; in-place mutation through one-way "
               "links onto an independently changed target is not compared; link graphs with "
@@ -289,7 +299,9 @@ CHECKS = {
               "callback site of the statement: custom validators, a two-alternative Union, "
               "_name_default and factory defaults, property getter/setter, cached observed "
               "property, List/Dict/Set item validators at the k-th item, a stand-alone TraitList, "
-              "Supports with a two-factory adapter chain, delegation, observed child links, "
+              "Supports with a two-factory adapter chain, delegation, observed child links, an "
+              "attribute kept equal on two objects by sync_trait (its partner-side validation "
+              "fails inside the library's own propagation handler: nested deciding callback), "
               "handler (un)registration; static, on_trait_change and observe handlers. For each "
               "sampled history the fault space is enumerated completely: every op x every "
               "eligible site that fired on the fault-free twin x every ordinal k x {TraitError, "
@@ -299,8 +311,7 @@ CHECKS = {
               "containers, caches by read-equivalence, registrations) must equal the pre-op "
               "state, no handler may run, and every later op must behave exactly as on a twin "
               "that never executed the op. Change handlers: outcome, snapshot and the set of "
-              "handlers run must equal the fault-free twin's, exactly one exception must be "
-              "routed, and the suffix must agree. Enumeration is exhaustive per sampled history; "
+              "handlers run must equal the fault-free twin's and the suffix must agree. Enumeration is exhaustive per sampled history; "
               "histories are sampled."),
         note=("Getters run for notifications (not explicit reads) and an injected TraitError in "
               "a non-last Union alternative ('this alternative rejects') are not injection "
